@@ -47,12 +47,40 @@ Definition dust_for_size (n : Z) : Z :=
   else if n =? 25 then 546
   else 354.
 
-(* input.ScriptIsOpReturn's fail-fast test is the only part that matters for
-   scripts that passed validation; the harness records the real answer and
-   Exec compares. *)
+(* input.ScriptIsOpReturn: OP_RETURN alone, or followed by exactly one opcode
+   that is a small integer (OP_0, OP_1..OP_16) or a data push (<= OP_PUSHDATA4)
+   of at most MaxDataCarrierSize = 80 bytes, as parsed by the txscript
+   tokenizer.  Bytes are 0..255. *)
+Definition is_nil {A} (l : list A) : bool := match l with [] => true | _ => false end.
+
 Definition is_opret (s : script) : bool :=
   match s with
-  | 106 :: _ => true    (* OP_RETURN *)
+  | 106 :: rest =>                       (* OP_RETURN *)
+    match rest with
+    | [] => true
+    | op :: tl =>
+      if op =? 0 then is_nil tl
+      else if (1 <=? op) && (op <=? 75) then slen tl =? op      (* OP_DATA_n *)
+      else if op =? 76 then                                     (* OP_PUSHDATA1 *)
+        match tl with
+        | l :: d => (slen d =? l) && (l <=? 80)
+        | _ => false
+        end
+      else if op =? 77 then                                     (* OP_PUSHDATA2 *)
+        match tl with
+        | l0 :: l1 :: d => let l := l0 + 256 * l1 in (slen d =? l) && (l <=? 80)
+        | _ => false
+        end
+      else if op =? 78 then                                     (* OP_PUSHDATA4 *)
+        match tl with
+        | l0 :: l1 :: l2 :: l3 :: d =>
+          let l := l0 + 256 * l1 + 65536 * l2 + 16777216 * l3 in
+          (slen d =? l) && (l <=? 80)
+        | _ => false
+        end
+      else if (81 <=? op) && (op <=? 96) then is_nil tl         (* OP_1..OP_16 *)
+      else false
+    end
   | _ => false
   end.
 
